@@ -373,7 +373,7 @@ def _absorb(ctx, rec):
 def run(ctx):
     quick = ctx.quick
     fixed = fixed_scenarios()
-    bound = 2 if quick else 3
+    bound = 2 if quick else 3   # quick: <= 1 complete, <= 2 capped; thorough: <= 2 complete, <= 3 capped
     per_scn = 2500 if quick else 60000   # cap on the runs per fixed scenario (spread over the first-level subtrees)
     n_rand_tasks = 32 if quick else 256
     rand = [(ctx.rng.getrandbits(48), 40 if quick else 150, False) for _ in range(n_rand_tasks)]
@@ -388,7 +388,8 @@ def run(ctx):
     ]
     with multiprocessing.get_context("fork").Pool(NPROC) as pool:
         # phase A: every schedule with at most 1 preemption, complete; phase B: `bound` preemptions, capped per scenario
-        for phase, (b, budget) in enumerate([(1, None), (bound, per_scn)]):
+        phases = [(1, None), (2, per_scn)] if quick else [(1, None), (2, None), (3, per_scn)]
+        for phase, (b, budget) in enumerate(phases):
             roots = pool.map(_root_task, [(i, b) for i in range(len(fixed))])
             tasks = []
             for i, (recs, kids) in enumerate(roots):
@@ -425,3 +426,35 @@ def replay(ctx, case):
     print("input (scenario, schedule):", case.get("input"))
     print("what:", case.get("what"))
     return False
+
+
+MANIFEST = {
+    "text": "Lean 4 theorems (Props/C11.lean) about a labelled transition system of rich/console.py + live.py + live_render.py + "
+    "progress.py (Model/Conc.lean: any number of threads, any programs over print/log/capture/update/refresh/start/stop/advance, a "
+    "schedule is any list of thread ids, one step = one lock operation / one shared access / one file.write / one thread-local "
+    "statement), all quantified over EVERY schedule: lock_order_acyclic (live < console < record) and no_deadlock; no internal "
+    "error; write_mutual_exclusion; write_own_output_only (a write call = pieces of one thread, one operation); output_exactly_once "
+    "(every piece a thread produced is in exactly one place once: one write of that thread, one of its capture results, or its "
+    "buffer) + finished_thread_flushed; capture_isolated; record_order_eq_file_order; live_screen_under_schedules_partial (sessions "
+    "whose frames all have one height: replaying the file in file order shows the printed lines then the frame of the last write, "
+    "via C10's run_hooked); print_vs_taller_refresh_breaks_screen = machine-checked witness schedule for the general screen "
+    "statement (finding F22).  Tie: real threads under a deterministic scheduler (harness/sched.py; yield points: every lock "
+    "operation, file.write, access to _render_hooks / record buffer / _live_render._shape / renderable, and in line mode every source "
+    "line of the five modules); every recorded trace of shared accesses is replayed on the model (trace inclusion) with equal "
+    "observables (hook seen, erase height, shape, renderable, bytes of every write, captures, export_text); schedules: all with <= 1 "
+    "preemption, then <= 2 (quick, capped) / <= 3 (thorough, capped) of 9 fixed scenarios, plus seeded random scenarios (2-4 threads) "
+    "under random-walk / PCT schedulers and line-granularity runs; the theorems' executable statements are evaluated on the real "
+    "output of every run (one write call per print, capture contents, export order, lock held at every write, no deadlock / "
+    "exception, terminal replay of the file).",
+    "note": "PARTIAL: (1) the screen theorem is proved for constant-height sessions only; today's code breaks the general statement "
+    "(known findings live-print-vs-taller-refresh / -shorter-refresh / -stop / -start, one root cause: Console.print reads the display "
+    "state in process_renderables and writes later outside the live lock; no small repair).  (2) Preemption inside one source line and "
+    "C-level reentrancy are not exhibited; the model's atomic actions are the statement sequences between two shared accesses, and the "
+    "unlocked read-modify-write of LiveRender._shape (Progress) is one action in the model.  (3) What a print renders to is a "
+    "parameter (its lines); styles, sys.stdout redirection, Jupyter, the auto-refresh thread (modelled as one more thread calling "
+    "refresh) are outside the model; capture blocks are not combined with a running display; Progress start/stop run before/after "
+    "the concurrent phase.  (4) 'exactly one write per print' is stated through pieces (a print's rendering is one piece, in at most "
+    "one write); the count of write calls per print is checked on real rich, not proved.  Trusted: Lean kernel, the scheduler and "
+    "the event instrumentation (lock proxies, traced list / live_render subclass), harness/term.py.",
+    "design_ref": "DESIGN.md section 7, C11",
+}
